@@ -37,6 +37,8 @@ def run(ctx, col, tier):
                       f"and its length after reading back differs from the length before", stmt="absprec", definite=True)
     except AnalysisError as _ex:
         col.unresolved("R-ABSPREC", "swcgeom.core.swc_utils.io.to_swc", "swcgeom/core/swc_utils/io.py:1", "the written precision does not depend on the position", str(_ex), stmt="absprec")
+    from ..rules import smalllints2 as _s2v
+    _s2v.run_allpairs(ctx, col, ('swcgeom.analysis.volume', 'swcgeom.utils.volumetric_object'))
     from ..rules import orderkind as _orderkind
     _orderkind.run(ctx, col, ('swcgeom.analysis.features', 'swcgeom.analysis.lmeasure', 'swcgeom.analysis.sholl', 'swcgeom.analysis.feature_extractor'))
     from ..rules import negidx as _negidx
